@@ -551,6 +551,9 @@ func c29GenClient(r *Rng) (c29ClientReq, []string) {
 	if c.Presign {
 		c.ExpiresS = []int{1, 60, 300, 900, 3600, 604800}[r.Intn(6)]
 		tags = append(tags, "presigned")
+		if r.Chance(20) { // some clients send (and sign) the payload header with a presigned URL; the payload line stays UNSIGNED-PAYLOAD
+			c.Headers["X-Amz-Content-Sha256"] = []string{r.Pick([]string{"UNSIGNED-PAYLOAD", c29Sha(c.Body), c29Sha("other")})}
+		}
 	} else {
 		c.PayloadMode = r.Pick([]string{"hash", "hash", "hash", "unsigned", "streaming"})
 		tags = append(tags, "header-mode", "payload-"+c.PayloadMode)
@@ -695,12 +698,13 @@ func c29RunCanon(f []string) Result {
 }
 
 type c29AuthCase struct {
-	Now    int64
-	Region string
-	Creds  [][]string
-	Req    c29Request
-	Facts  []c29Fact
-	Expect string
+	Now      int64
+	Region   string
+	Creds    [][]string
+	Req      c29Request
+	Facts    []c29Fact
+	Expect   string
+	Mutation string // C28: name of the catalogue entry that produced the case
 }
 
 func c29ParseAuth(f []string) (c29AuthCase, string) {
@@ -722,7 +726,7 @@ func c29ParseAuth(f []string) (c29AuthCase, string) {
 		}
 		c.Facts = append(c.Facts, ft)
 	}
-	c.Expect = f[12]
+	c.Expect, c.Mutation, _ = strings.Cut(f[12], "@")
 	return c, ""
 }
 
@@ -772,6 +776,10 @@ func c29RunAuth(f []string) Result {
 	}
 	out := c29RunMiddleware(c)
 	tags := append([]string{"auth"}, c29Tags(c.Req, c29IsPresigned(c.Req))...)
+	if c.Mutation != "" {
+		name, _, _ := strings.Cut(c.Mutation, ":")
+		tags = append(tags, "mut:"+name)
+	}
 	oracle := "-"
 	switch {
 	case strings.HasPrefix(c.Expect, "Y"):
